@@ -139,6 +139,7 @@ func Execute(t *testing.T, sc *Scenario, seed uint64, plan, sched *sim.Tape, wan
 		}()
 		debug.SetGCPercent(gcOff)
 		if pb, ok := r.(interface{ Post(s *sim.Sim) }); ok && !s.Failed() {
+			s.AdoptRoot() // Fail from other goroutines is ignored once the scheduler has stopped
 			pb.Post(s)
 		}
 		res.Violations = s.Violations()
